@@ -49,6 +49,9 @@ struct WriterModel {
   eid: [u8; 4],
   matched: bool,
   fsize: u16,
+  /// some fragmented samples of this writer have several hundred fragments (more than the 256
+  /// a fragment-number set can name)
+  huge: bool,
   hb_seen: i32,
   rcv: BTreeMap<i64, Delivered>,
   /// processed declarations: every sn < ubelow, and the members of uset
@@ -111,7 +114,7 @@ fn sample_desc(w: &WriterModel, sn: i64, big_mask: u32, focus: Focus) -> SampleD
   let vlen: usize = if fragmented {
     // total serialized size S = k*fs + r (k = 1..5 fragments' worth, every
     // residue around a multiple of the fragment size), at least two fragments
-    let k = 1 + (h >> 8) as usize % 5;
+    let k = if w.huge && (h >> 40) % 3 == 0 { 250 + (h >> 44) as usize % 60 } else { 1 + (h >> 8) as usize % 5 };
     let r = [0usize, 1, 2, 3, fs - 1, fs - 2, fs / 2][(h >> 16) as usize % 7];
     (k * fs + r).max(fs + 1) - 4
   } else if key_flag {
@@ -275,6 +278,8 @@ pub fn run(focus: Focus, choices: &[u8], _strict: bool) -> Outcome {
     );
     let matched = i == 0 || !c.chance(50);
     let fsize = [8u16, 12, 16, 32, 64][c.pick(5)];
+    let huge = big_mask != 0 && c.chance(60);
+    let fsize = if huge { 8 } else { fsize };
     if matched {
       node.reader_mut(ri).update_writer_proxy(
         rig::writer_proxy_for(guid, rig::node_locator(prefix_node)),
@@ -288,6 +293,7 @@ pub fn run(focus: Focus, choices: &[u8], _strict: bool) -> Outcome {
       eid: eid_bytes(guid.entity_id),
       matched,
       fsize,
+      huge,
       hb_seen: 0,
       rcv: BTreeMap::new(),
       ubelow: 1,
